@@ -17,6 +17,9 @@ def main():
     try:
         mod = importlib.import_module("props." + a.prop)
         mod.run(rep, a.tier, seed)
+        from props._levels import LEVELS
+        rep.level = LEVELS[a.prop]["category"]          # the claimed level; finish() downgrades it when the run did not achieve it
+        rep.explanation = LEVELS[a.prop]["text"]
     except Exception:
         traceback.print_exc()
         print(f"[{a.prop}] engine failure (exit 3): this is a fault of the checker, not a verdict on the property")
